@@ -172,6 +172,10 @@ def build_inputs(tier):
             cases.append(("multiline-field", f"if x:\n    y = f{q}{body}{q}\nz = 3\n", "exec"))
             cases.append(("multiline-field", f"y = f{q}{body}{q}\nz = 3\n", "exec"))
     cases.append(("multiline-field", "if x:\n    y = f'{a + \\\n b}'\nz = 3\n", "exec"))
+    for fs in ["f'{x:>3}'", "f'{x!r:>3}'", "f'{x}'", "f'a{x:.2f}b'", 'f"{x:>3}" f"{y}"', "f'''{x:>3}'''"]:
+        for tail in [" + \\\n    1\n", " \\\n    'more'\n", "  # c\n"]:
+            cases.append(("spec-then-continuation", f"y = {fs}{tail}z = 3\n", "exec"))
+            cases.append(("spec-then-continuation", f"if a:\n    y = {fs}{tail}z = 3\n", "exec"))
     # product generator (valid sub-domain and known-defect sub-domain)
     for _ in range(900 * N):
         p = r.choice(PREFIXES)
